@@ -109,8 +109,11 @@ class Registry:
         self.class_fields[cls] = dict(fields)
         for f, t in fields.items():
             old = self.field_types.get(f)
-            if old is not None and repr(old) != repr(t):
-                raise ValueError("field %s declared with two types: %r vs %r" % (f, old, t))
+            sig = lambda x: (repr(x), getattr(x, "lo", None), getattr(x, "hi", None), repr(getattr(x, "members", None)))
+            if old is not None and sig(old) != sig(t):
+                # heap fields are keyed by name across classes: bounds / member restrictions of one class would silently become
+                # assumptions about every object with a field of that name
+                raise ValueError("field %s declared with two types: %r %r vs %r %r" % (f, old, sig(old), t, sig(t)))
             self.field_types[f] = t
 
     def declare_struct(self, cls):
